@@ -25,7 +25,7 @@ from anyio.from_thread import BlockingPortal, start_blocking_portal
 from anyio.lowlevel import checkpoint
 
 KINDS = ["sync", "coro", "coro_sleep", "fail", "wait_release", "soon", "soon_cancel", "soon_late_cancel", "start", "start_fail",
-         "start_nostarted", "cm", "release", "gate"]
+         "start_nostarted", "cm", "release", "gate", "self_cancel"]
 
 
 class CallErr(Exception):
@@ -192,6 +192,20 @@ class PortalRun:
                 st["running"] = False
                 st["done"] = True
 
+        async def fselfcancel():
+            # ends with the backend's cancellation exception although nobody cancelled its future or the portal (it
+            # awaited something that was cancelled natively): that is this call's own outcome and nobody else's
+            enter()
+            try:
+                await checkpoint()
+                fut = asyncio.get_running_loop().create_future()
+                fut.cancel()
+                st["self_cancelled"] = True
+                await fut
+            finally:
+                st["running"] = False
+                st["done"] = True
+
         async def fstart(*, task_status=TASK_STATUS_IGNORED):
             enter()
             try:
@@ -213,7 +227,7 @@ class PortalRun:
                 st["done"] = True
 
         return {"sync": fsync, "coro": fcoro, "coro_sleep": fsleep, "fail": ffail, "wait_release": fwait, "soon": fsleep,
-                "soon_cancel": fsleep, "soon_late_cancel": fwait, "start": fstart, "start_fail": fstart, "start_nostarted": fstart}[kind]
+                "self_cancel": fselfcancel, "soon_cancel": fsleep, "soon_late_cancel": fwait, "start": fstart, "start_fail": fstart, "start_nostarted": fstart}[kind]
 
     class CM:
         def __init__(self, run, cid):
@@ -273,6 +287,17 @@ class PortalRun:
                 if kind in ("sync", "coro", "coro_sleep", "wait_release"):
                     r = portal.call(fn)
                     self.check_value(cid, r)
+                elif kind == "self_cancel":
+                    try:
+                        portal.call(fn)
+                    except concurrent.futures.CancelledError:
+                        st["outcome"] = "cancelled"
+                        if st.get("self_cancelled"):
+                            self.bump("own_cancellation_reported_to_caller")
+                        elif not self.cancel_remaining_possible():
+                            self.v("spurious_cancel", f"call {cid}: cancelled before it ran although cancel_remaining was never requested")
+                    else:
+                        self.v("result", f"call {cid}: the callable ended with a cancellation but portal.call() returned normally")
                 elif kind == "fail":
                     try:
                         portal.call(fn)
